@@ -124,24 +124,31 @@ def build(cfg, record=True):
     lo, hi = [-1.0, 0.5][:d], [2.0, 1.5][:d]
     with warnings.catch_warnings():
         warnings.simplefilter("ignore")
+        het = None
+        if cfg.get("hetero"):
+            # the equation parameter c is declared heterogeneous: c(point) = c + HET_A * sin(HET_W * first coordinate)
+            hf = {"ode": (lambda t, u, p: p.eq_params["c"] + HET_A * jnp.sin(HET_W * jnp.reshape(t, ()))),
+                  "statio": (lambda x, u, p: p.eq_params["c"] + HET_A * jnp.sin(HET_W * x[0])),
+                  "nonstatio": (lambda t, x, u, p: p.eq_params["c"] + HET_A * jnp.sin(HET_W * x[0]))}[kind]
+            het = {"c": hf}
         if kind == "ode":
             cls = RecODE if record else jinns.data.DataGeneratorODE
             g = cls(key, cfg["nt"], 0.0, 1.0, cfg["bt"], "uniform", rar, cfg["nt_start"])
             u = nets.affine_pinn("ODE", [[cfg["wt"]]], [cfg["b"]])
-            dyn = ResODE(ncomp=cfg.get("ncomp", 1))
+            dyn = ResODE(ncomp=cfg.get("ncomp", 1), eq_params_heterogeneity=het)
         elif kind == "statio":
             cls = RecStatio if record else jinns.data.CubicMeshPDEStatio
             g = cls(key=key, n=cfg["n"], nb=None, omega_batch_size=cfg["bx"], omega_border_batch_size=None, dim=d,
                     min_pts=tuple(lo), max_pts=tuple(hi), rar_parameters=rar, n_start=cfg["n_start"])
             u = nets.affine_pinn("statio_PDE", [cfg["wx"][:d]], [cfg["b"]])
-            dyn = ResStatio(ncomp=cfg.get("ncomp", 1))
+            dyn = ResStatio(ncomp=cfg.get("ncomp", 1), eq_params_heterogeneity=het)
         else:
             cls = RecNonStatio if record else jinns.data.CubicMeshPDENonStatio
             g = cls(key=key, n=cfg["n"], nb=None, nt=cfg["nt"], omega_batch_size=cfg["bx"], omega_border_batch_size=None,
                     temporal_batch_size=cfg["bt"], dim=d, min_pts=tuple(lo), max_pts=tuple(hi), tmin=0.0, tmax=1.0,
                     rar_parameters=rar, n_start=cfg["n_start"], nt_start=cfg["nt_start"])
             u = nets.affine_pinn("nonstatio_PDE", [[cfg["wt"]] + cfg["wx"][:d]], [cfg["b"]])
-            dyn = ResNonStatio()
+            dyn = ResNonStatio(eq_params_heterogeneity=het)
         params = jinns.parameters.Params(nn_params=u.init_params(), eq_params={"c": jnp.asarray(cfg["c"])})
         if cfg.get("system"):
             # one-unknown, one-equation system loss (the schedule must not depend on the kind of loss)
@@ -163,9 +170,15 @@ def build(cfg, record=True):
     return g, loss, params, (lo, hi)
 
 
+HET_A, HET_W = 2.0, 6.0
+
+
 def residual_sq(cfg, t=None, x=None):
     """independent NumPy recomputation of the squared residual (float64)"""
     r = cfg["b"] - cfg["c"]
+    if cfg.get("hetero"):
+        first_ = np.asarray(t, dtype=np.float64) if x is None else np.asarray(x, dtype=np.float64)[..., 0]
+        r = r - HET_A * np.sin(HET_W * first_)
     if t is not None:
         r = r + cfg["wt"] * np.asarray(t, dtype=np.float64)
     if x is not None:
